@@ -265,7 +265,12 @@ def locate_item(file, text, kind, name):
             elif ch == ';' and depth == 0:
                 return m.start(), k + 1
             elif ch == '{' and depth == 0:
-                return m.start(), match_brace(masked, k) + 1
+                if kind in ('type', 'const'):
+                    # a braced const-generic argument / block initialiser (`ArrayVec<T, { N - 1 }>`):
+                    # such items end at `;`, never at a brace
+                    k = match_brace(masked, k)
+                else:
+                    return m.start(), match_brace(masked, k) + 1
             k += 1
     raise ScanError('%s: %s %s not found' % (file, kind, name))
 
